@@ -47,9 +47,12 @@ def run(prop, tier, repo):
             o["function"] = q
             o["source_sha"] = f["sha"]
             todo.append(o)
+    lemma_list = [("lib:" + n, h, c) for n, h, c in stdspec.lib_schemas()] if getattr(mod, "USES_LIB", False) else []
     if hasattr(mod, "lemmas"):
+        lemma_list += list(mod.lemmas(reg))
+    if lemma_list:
         import z3
-        for name, hyps, claim in mod.lemmas(reg):
+        for name, hyps, claim in lemma_list:
             s = z3.Solver()
             for h in hyps:
                 s.add(h)
